@@ -261,6 +261,9 @@ namespace bxdecay0 {
         part.set_px(px);
         part.set_py(py);
         part.set_pz(pz);
+        if (!part.is_valid()) {
+          throw std::runtime_error("bxdecay0::event_reader::load_next_event: Invalid particle record!");
+        }
         evt_.add_particle(part);
       }
       if (is_debug()) std::cerr << "[debug] bxdecay0::event_reader::load_next_event: Updating counters...\n";
